@@ -18,15 +18,17 @@ pub struct XmlCfg {
     pub with_rcdom: bool,
     /// token-level sink answers an end tag named `script` with Script (as the tree builder does)
     pub script_pause: bool,
+    /// tree level: run the simulated collector at every suspension point (C18)
+    pub gc: bool,
 }
 impl Default for XmlCfg {
     fn default() -> Self {
-        XmlCfg { exact_errors: false, discard_bom: true, profile: false, with_rcdom: false, script_pause: false }
+        XmlCfg { exact_errors: false, discard_bom: true, profile: false, with_rcdom: false, script_pause: false, gc: false }
     }
 }
 impl XmlCfg {
     pub fn describe(&self) -> String {
-        format!("xml exact={} bom={}", self.exact_errors, self.discard_bom)
+        format!("xml exact={} bom={}{}{}", self.exact_errors, self.discard_bom, if self.profile { " profile=true" } else { "" }, if self.gc { " gc=true" } else { "" })
     }
 }
 
@@ -151,6 +153,7 @@ pub fn run_xml_tokens(cfg: &XmlCfg, sched: &[Feed], end: bool, want_dump: bool) 
 }
 
 pub struct XTreeOut {
+    pub collected: usize,
     pub problems: Vec<String>,
     pub sink: MSink,
     pub tb_key: String,
@@ -168,6 +171,7 @@ pub fn run_xml_tree(cfg: &XmlCfg, sched: &[Feed], end: bool) -> XTreeOut {
         },
     );
     let mut problems = vec![];
+    let mut collected = 0usize;
     for f in sched {
         match f {
             Feed::Chunk(s) => p.input_buffer.push_back(StrTendril::from_slice(s)),
@@ -180,7 +184,15 @@ pub fn run_xml_tree(cfg: &XmlCfg, sched: &[Feed], end: bool) -> XTreeOut {
                 problems.push("xml feed loop does not terminate".into());
                 break;
             }
-            match p.tokenizer.feed(&p.input_buffer) {
+            let r = p.tokenizer.feed(&p.input_buffer);
+            if cfg.gc {
+                // a suspension point: everything not connected to a traced handle goes
+                let t = crate::treeh::CollectTracer { seen: RefCell::new(vec![]) };
+                p.tokenizer.sink.trace_handles(&t);
+                let roots = t.seen.into_inner();
+                collected += p.tokenizer.sink.sink.collect_except(&roots);
+            }
+            match r {
                 TokenizerResult::Done => {
                     if !p.input_buffer.is_empty() {
                         problems.push("xml feed returned Done with a non-empty queue".into());
@@ -200,7 +212,7 @@ pub fn run_xml_tree(cfg: &XmlCfg, sched: &[Feed], end: bool) -> XTreeOut {
     if end {
         p.tokenizer.end();
     }
-    XTreeOut { problems, sink: p.tokenizer.sink.sink, tb_key }
+    XTreeOut { problems, sink: p.tokenizer.sink.sink, tb_key, collected }
 }
 
 /// scale run used by the C04 child process
